@@ -14,13 +14,16 @@ def names_sorted():
 
 
 def report_parser():
-    txt = ("Compile·····\nCompile END·····[✓]\nValidate output····\n  Scope····\n  Scope END····[⨉] (1 error)\n"
-           "  Missing services····\n  Missing services END····ignored\nValidate output END····[⨉] (1 error)\nErrors:\n1. a\n")
+    txt = ("Compile·····\nCompile END·····[✓]\nChecking the output····\n  Scopes····\n  Scopes END····[⨉] (1 error)\n"
+           "  Cycles····\n  Cycles END····[✓]\n  Params····\n  Params END····[✓]\n"
+           "  Missing services····\n  Missing services END····ignored\nChecking the output END····[⨉] (1 error)\nProblems:\n1. a\n   second line\n")
     r = core.Report(txt)
-    assert r.step("Scope")["status"] == "fail" and r.step("Scope")["count"] == 1
+    # steps are identified by position, whatever they are called
+    assert r.step("Scope")["status"] == "fail" and r.step("Scope")["count"] == 1 and r.step("Scope")["raw_name"] == "Scopes"
     assert r.step("Missing services")["status"] == "ignored"
-    assert r.errors == ["a"], r.errors
-    assert r.sub_errors()["Scope"] == ["a"]
+    assert r.errors == ["a\n   second line"], r.errors
+    assert r.has_errors_header
+    assert r.sub_errors()["Scope"] == ["a\n   second line"]
     assert core.mentions('"s1": service', "s1") and not core.mentions('"s10": service', "s1")
 
 
